@@ -10,20 +10,19 @@ every `b ≤ 61`, `H = 2^62 - 4` for `b = 62`); they need not be normalised.
 The model follows poulpy after the repairs docs/fixes/01–03 (gap region, rsh_assign, NTT120 fused cross radix).
 
 /- FULL STATEMENTS not (fully) proved; everything below is covered by correspondence + oracle:
-   `lsh_value`: `lshCoef .overwrite b k a res` represents `a·2^k` within one unit (exact with enough
-   limbs), digits balanced — the identification with `normalizeInterCoef … (+k)` is not proved.
-   `fused_value`: the add / sub forms (`lshCoef .add/.sub`, `rshCoef .add/.sub`,
-   `bigNormalizeFusedCol64?/128?`) represent `res ± a·2^off` within one unit.  Proved here only for
-   the forms that are "normalise into a temporary, then limb-wise ±" (`fused_fallback_value`:
-   FFT64 always, NTT120 for different radices) under a no-wrap hypothesis on the limb sums.
-   `normalize_cross_value`: for `res_base2k ≠ a_base2k`, `normalizeCrossCoef bits rb rs off ab a` is
-   `TorusNear` `a·2^off` and exact with enough limbs.  Only `normalize_cross_value_partial` (the
-   all-shifted-out case) is proved; 0 disagreements / 0 oracle failures over all radix pairs 1..62².
-   `encode_decode`: `decodeCoefVec 64 b k (encodeCoefI64 b k size v) = ok v'` with `v' ≡ v (mod 2^k)` and
-   `v' = v` when the balanced expansion fits.  Proved: the encode half (`encode_value`,
-   `encode_frame_*`); the decode half is covered by the round-trip oracle over every (b,k). -/
+   `normalize_cross_value` (offset ≠ 0): for `res_base2k ≠ a_base2k` and an arbitrary offset,
+   `normalizeCrossCoef bits rb rs off ab a` is `TorusNear` `a·2^off` and exact with enough limbs.  Proved:
+   offset 0 for every pair of radices (`normalize_cross_value_offset0`, `normalize_value_offset0`,
+   `big_normalize128_value_offset0`) and the all-shifted-out case for every offset
+   (`normalize_cross_value_partial`).  The loop invariant (Lemmas/NormCross, NormCross2, NormCross3) is
+   offset independent; what is missing for offset ≠ 0 is the end-game arithmetic of the limb / bit
+   counters and the carry-propagation block of negative offsets.  0 disagreements / 0 oracle failures
+   over all radix pairs 1..62² and all offsets in the correspondence.
+-/
 -/
 import Poulpy.Lemmas.NormFused
+import Poulpy.Lemmas.NormCross4
+import Poulpy.Lemmas.NormCodec
 
 namespace C08
 open NormL
@@ -281,6 +280,65 @@ theorem big_normalize_add_value64 {b : Nat} {H : Int} (hr : HeadRoom 64 b 0 H) (
   have hnw := no_wrap_of_balanced hb1 hb res _ hres h.2.1
   exact fused_add_fallback_value b res _ h.1.symm hnw.1 (by rw [h.1]; exact h.2.2.1)
 
+/-- **the NTT120 same-radix fused kernels are the fall-back form**: within head-room
+`ntt120_vec_znx_big_normalize_inter_assign::<AddOp/SubOp>` computes `res[j] ± tmp[j]` limb for limb, `tmp`
+being the normalisation into a temporary (so NTT120 and FFT64 agree bit for bit on these operations). -/
+theorem big_normalize_fused128_eq {b : Nat} {H : Int} (hr : HeadRoom 128 b 0 H) (op : AccOp) (off : Int)
+    (a res : List Int) (ha : ∀ x ∈ a, |x| ≤ H) (hres : ∀ r ∈ res, |r| < 2 ^ 63) :
+    bigNormalizeAssignCoef128 op b off b a res
+      = some (List.zipWith (fun r x => op.apply r x) res ((normalizeInterCoef 128 b res.length off a).map w64)) := by
+  unfold bigNormalizeAssignCoef128
+  simp only [if_true]
+  rw [normalizeInterAssignCoef128_eq hr op off a res ha hres]
+
+/-- **NTT120 same-radix `vec_znx_big_normalize_add_assign`**: `res' − res` represents `a·2^off` within one
+unit of the last limb (`i128` accumulator limbs within head-room, `res` limbs up to `2^62`). -/
+theorem big_normalize_add_value128 {b : Nat} {H : Int} (hr : HeadRoom 128 b 0 H) (hb : b ≤ 62) (off : Int)
+    (a res : List Int) (ha : ∀ x ∈ a, |x| ≤ H) (hres : ∀ r ∈ res, |r| ≤ 2 ^ 62) :
+    ∃ res', bigNormalizeAssignCoef128 .add b off b a res = some res' ∧
+      TorusNear (valI b res' - valI b res) (b * res.length) (valI b a * 2 ^ off.toNat) (b * a.length + (-off).toNat) := by
+  have hb1 : 1 ≤ b := by have := hr.hlsh; omega
+  have hres' : ∀ r ∈ res, |r| < 2 ^ 63 := fun r h => by have := hres r h; linarith
+  refine ⟨_, big_normalize_fused128_eq hr .add off a res ha hres', ?_⟩
+  have h := normalize_inter_value hr res.length off a ha
+  have hw : (normalizeInterCoef 128 b res.length off a).map w64 = normalizeInterCoef 128 b res.length off a := by
+    have hwd : ∀ d ∈ normalizeInterCoef 128 b res.length off a, w64 d = id d := by
+      intro d hd
+      have := (h.2.1 d hd).abs_le
+      have h1 : (2 : Int) ^ (b - 1) ≤ 2 ^ 61 := two_pow_le (by omega)
+      exact w64_eq_of_abs_lt (by linarith)
+    rw [List.map_congr_left hwd, List.map_id]
+  rw [hw]
+  have hnw := no_wrap_of_balanced hb1 hb res _ hres h.2.1
+  exact fused_add_fallback_value b res _ h.1.symm hnw.1 (by rw [h.1]; exact h.2.2.1)
+
+/-- **NTT120 same-radix `vec_znx_big_normalize_sub_assign`**: `res' − res` represents `−a·2^off` -/
+theorem big_normalize_sub_value128 {b : Nat} {H : Int} (hr : HeadRoom 128 b 0 H) (hb : b ≤ 62) (off : Int)
+    (a res : List Int) (ha : ∀ x ∈ a, |x| ≤ H) (hres : ∀ r ∈ res, |r| ≤ 2 ^ 62) :
+    ∃ res', bigNormalizeAssignCoef128 .sub b off b a res = some res' ∧
+      TorusNear (valI b res' - valI b res) (b * res.length) (-(valI b a * 2 ^ off.toNat)) (b * a.length + (-off).toNat) := by
+  have hb1 : 1 ≤ b := by have := hr.hlsh; omega
+  have hres' : ∀ r ∈ res, |r| < 2 ^ 63 := fun r h => by have := hres r h; linarith
+  refine ⟨_, big_normalize_fused128_eq hr .sub off a res ha hres', ?_⟩
+  have h := normalize_inter_value hr res.length off a ha
+  have hw : (normalizeInterCoef 128 b res.length off a).map w64 = normalizeInterCoef 128 b res.length off a := by
+    have hwd : ∀ d ∈ normalizeInterCoef 128 b res.length off a, w64 d = id d := by
+      intro d hd
+      have := (h.2.1 d hd).abs_le
+      have h1 : (2 : Int) ^ (b - 1) ≤ 2 ^ 61 := two_pow_le (by omega)
+      exact w64_eq_of_abs_lt (by linarith)
+    rw [List.map_congr_left hwd, List.map_id]
+  rw [hw]
+  have hnw := no_wrap_of_balanced hb1 hb res _ hres h.2.1
+  exact fused_sub_fallback_value b res _ h.1.symm hnw.2 (by rw [h.1]; exact h.2.2.1)
+
+example : ∃ res', bigNormalizeAssignCoef128 .add 20 (-33) 20 [2 ^ 100, -5, 77] [2 ^ 62, -(2 ^ 62)] = some res' ∧
+    TorusNear (valI 20 res' - valI 20 [2 ^ 62, -(2 ^ 62)]) (20 * 2) (valI 20 [2 ^ 100, -5, 77] * 2 ^ (-33 : Int).toNat)
+      (20 * 3 + (33 : Int).toNat) :=
+  big_normalize_add_value128 (b := 20) (H := 2 ^ 120) ⟨by norm_num, by norm_num, by norm_num, by norm_num, by norm_num⟩
+    (by norm_num) (-33) _ _ (by intro x hx; simp at hx; rcases hx with rfl | rfl | rfl <;> norm_num)
+    (by intro x hx; simp at hx; rcases hx with rfl | rfl <;> norm_num)
+
 /-- **`vec_znx_lsh_add_into`**: the fused kernel is the fall-back form, hence `res' − res` represents
 `a·2^k` within one unit of the last limb. -/
 theorem lsh_add_value {b : Nat} {H : Int} (hr : HeadRoom 64 b 0 H) (hb : b ≤ 62) (k : Nat) (a res : List Int)
@@ -309,6 +367,50 @@ example : TorusNear (valI 50 (lshCoef .add 50 57 [2 ^ 61, -7, 12345] [2 ^ 62, -(
   lsh_add_value (b := 50) (H := 2 ^ 62) ⟨by norm_num, by norm_num, by norm_num, by norm_num, by norm_num⟩ (by norm_num) 57 _ _
     (by intro x hx; simp at hx; rcases hx with rfl | rfl | rfl <;> norm_num)
     (by intro x hx; simp at hx; rcases hx with rfl | rfl <;> norm_num)
+
+/-- **`vec_znx_rsh_add_into`**, every `k`: the kernel re-normalises the top `⌈k/b⌉` limbs of `res`
+together with the carry, adds the digits to the middle limbs and leaves the bottom limbs; `res' − res`
+represents `a·2^-k` within one unit of the last limb (limbs of `res` within head-room and `≤ 2^62`). -/
+theorem rsh_add_value {b : Nat} {H : Int} (hr : HeadRoom 64 b 0 H) (hb62 : b ≤ 62) (k : Nat) (a res : List Int)
+    (ha : ∀ x ∈ a, |x| ≤ H) (hres : ∀ r ∈ res, |r| ≤ H) (hres62 : ∀ r ∈ res, |r| ≤ 2 ^ 62) :
+    (rshCoef .add b k a res).length = res.length ∧
+    TorusNear (valI b (rshCoef .add b k a res) - valI b res) (b * res.length) (valI b a) (b * a.length + k) := by
+  obtain ⟨hl, t, ht⟩ := rshCoef_fused_cong hr hb62 false k a res ha hres hres62
+  simp only [Bool.false_eq_true, if_false, one_mul] at hl ht
+  exact ⟨hl, torusNear_of_cong ⟨t, by linarith⟩ (rsh_value hr k a res ha).2.2.1⟩
+
+/-- **`vec_znx_rsh_sub`**, every `k`: `res' − res` represents `−a·2^-k` within one unit of the last limb -/
+theorem rsh_sub_value {b : Nat} {H : Int} (hr : HeadRoom 64 b 0 H) (hb62 : b ≤ 62) (k : Nat) (a res : List Int)
+    (ha : ∀ x ∈ a, |x| ≤ H) (hres : ∀ r ∈ res, |r| ≤ H) (hres62 : ∀ r ∈ res, |r| ≤ 2 ^ 62) :
+    (rshCoef .sub b k a res).length = res.length ∧
+    TorusNear (valI b (rshCoef .sub b k a res) - valI b res) (b * res.length) (-(valI b a)) (b * a.length + k) := by
+  obtain ⟨hl, t, ht⟩ := rshCoef_fused_cong hr hb62 true k a res ha hres hres62
+  simp only [if_true] at hl ht
+  refine ⟨hl, torusNear_of_cong ⟨t, ?_⟩ (rsh_value hr k a res ha).2.2.1.neg⟩
+  linarith
+
+example : TorusNear (valI 50 (rshCoef .add 50 57 [2 ^ 61, -7, 12345] [2 ^ 61, -(2 ^ 61)]) - valI 50 [2 ^ 61, -(2 ^ 61)])
+    (50 * 2) (valI 50 [2 ^ 61, -7, 12345]) (50 * 3 + 57) :=
+  (rsh_add_value (b := 50) (H := 2 ^ 62) ⟨by norm_num, by norm_num, by norm_num, by norm_num, by norm_num⟩ (by norm_num) 57 _ _
+    (by intro x hx; simp at hx; rcases hx with rfl | rfl | rfl <;> norm_num)
+    (by intro x hx; simp at hx; rcases hx with rfl | rfl <;> norm_num)
+    (by intro x hx; simp at hx; rcases hx with rfl | rfl <;> norm_num)).2
+
+/-- **`vec_znx_lsh_assign`** is `vec_znx_lsh` with `res = a`: same length, balanced digits and exactly
+`a·2^k` on the torus (the output has as many limbs as the input). -/
+theorem lsh_assign_value {b : Nat} {H : Int} (k : Nat) (hr : HeadRoom 64 b 0 H) (a : List Int) (ha : ∀ x ∈ a, |x| ≤ H) :
+    lshAssignCoef b k a = lshCoef .overwrite b k a a ∧
+    (lshAssignCoef b k a).length = a.length ∧ (∀ d ∈ lshAssignCoef b k a, Balanced b d) ∧
+    TorusEq (valI b (lshAssignCoef b k a)) (b * a.length) (valI b a * 2 ^ k) (b * a.length) := by
+  have hb : 1 ≤ b := by have := hr.hlsh; omega
+  have he := lshAssignCoef_eq k (hr.with_lsh (Nat.mod_lt k (by omega))) a ha
+  have hv := lsh_value hr k a a ha
+  rw [he]
+  exact ⟨rfl, hv.1, hv.2.1, hv.2.2.2 (by omega)⟩
+
+example : TorusEq (valI 17 (lshAssignCoef 17 40 [2 ^ 62, -(2 ^ 40), 7])) (17 * 3) (valI 17 [2 ^ 62, -(2 ^ 40), 7] * 2 ^ 40) (17 * 3) :=
+  (lsh_assign_value (b := 17) (H := 2 ^ 62) 40 ⟨by norm_num, by norm_num, by norm_num, by norm_num, by norm_num⟩ _
+    (by intro x hx; simp at hx; rcases hx with rfl | rfl | rfl <;> norm_num)).2.2.2
 
 /-! ### vec_znx_normalize_assign -/
 
@@ -402,11 +504,173 @@ theorem encode_frame_column (v : List Col) (n b col k : Nat) (data : List Int) (
     unfold getCol setCol
     simp [List.getD_eq_getElem?_getD, List.getElem?_set, hc.symm]
 
+/-! ### encode → decode round trip -/
+
+/-- **round trip, `i64`** (`encode_vec_i64` / `encode_coeff_i64`, then `decode_coeff_i64`,
+`decode_vec_i64`, `decode_vec_i128`), for every `1 ≤ b ≤ 62`, `1 ≤ k ≤ size·b` and `|v| ≤ H`: all three
+decoders succeed and return `v − q·2^k` reduced to their width (`wrapN 64` / `wrapN 128`) — i.e. `v`
+modulo `2^k` (modulo `2^64` when `k ≥ 64`) — where `q` is the carry out of the balanced expansion; the
+expansion fits (`q = 0`, result `= v`) whenever `4·|v| < 2^k` (i.e. `|v| < 2^(k−2)`) and `b ≥ 2`. -/
+theorem encode_decode {b k aSize : Nat} {H : Int} (hr : HeadRoom 64 b (encLsh b k) H) (hb62 : b ≤ 62)
+    (hk : 1 ≤ k) (hsz : encSize b k ≤ aSize) (v : Int) (hv : |v| ≤ H) :
+    ∃ q : Int,
+      decodeCoefI64 b k (encodeCoefI64 b k aSize v) = .ok (wrapN 64 (v - q * 2 ^ k)) ∧
+      decodeCoefVec 64 b k (encodeCoefI64 b k aSize v) = .ok (wrapN 64 (v - q * 2 ^ k)) ∧
+      decodeCoefVec 128 b k (encodeCoefI64 b k aSize v) = .ok (wrapN 128 (v - q * 2 ^ k)) ∧
+      (2 ≤ b → 4 * |v| < 2 ^ k → q = 0) :=
+  encode_decode_roundtrip hr hb62 hk hsz v hv
+
+/-- corollary: for `|v| < 2^(k-2)` (and `v` an `i64`) the round trip is the identity -/
+theorem encode_decode_exact {b k aSize : Nat} {H : Int} (hr : HeadRoom 64 b (encLsh b k) H) (hb2 : 2 ≤ b) (hb62 : b ≤ 62)
+    (hk : 1 ≤ k) (hsz : encSize b k ≤ aSize) (v : Int) (hv : |v| ≤ H) (hsmall : 4 * |v| < 2 ^ k) (hv64 : |v| < 2 ^ 63) :
+    decodeCoefI64 b k (encodeCoefI64 b k aSize v) = .ok v ∧
+    decodeCoefVec 64 b k (encodeCoefI64 b k aSize v) = .ok v ∧
+    decodeCoefVec 128 b k (encodeCoefI64 b k aSize v) = .ok v := by
+  obtain ⟨q, h1, h2, h3, h4⟩ := encode_decode hr hb62 hk hsz v hv
+  have hq := h4 hb2 hsmall
+  subst hq
+  simp only [zero_mul, sub_zero] at h1 h2 h3
+  have e64 : wrapN 64 v = v := wrapN_eq_abs (by norm_num) (by simpa using hv64)
+  have e128 : wrapN 128 v = v := wrapN_eq_abs (by norm_num) (by
+    have : (2 : Int) ^ 63 ≤ 2 ^ (128 - 1) := by norm_num
+    linarith)
+  rw [e64] at h1 h2; rw [e128] at h3
+  exact ⟨h1, h2, h3⟩
+
+example : decodeCoefVec 64 5 7 (encodeCoefI64 5 7 3 (-30)) = .ok (-30) :=
+  (encode_decode_exact (b := 5) (k := 7) (aSize := 3) (H := 2 ^ 40)
+    ⟨by norm_num, by decide, by norm_num, by norm_num, by norm_num⟩ (by norm_num) (by norm_num) (by norm_num) (by decide)
+    (-30) (by norm_num) (by norm_num) (by norm_num)).2.1
+
+/-- a value at the edge `v = 2^(k-1)` decodes to its negative representative (`≡ v mod 2^k`) -/
+example : decodeCoefVec 64 5 7 (encodeCoefI64 5 7 3 64) = .ok (-64) := by rfl
+
+/-- **round trip, `i128`** (`encode_vec_i128`, `|v| ≤ 2^126`): same statement -/
+theorem encode128_decode {b k aSize : Nat} {H : Int} (hr : HeadRoom 64 b (encLsh b k) H) (hH : 2 ^ (b - 1) ≤ H)
+    (hb62 : b ≤ 62) (hk : 1 ≤ k) (hsz : encSize b k ≤ aSize) (v : Int) (hv : |v| ≤ 2 ^ 126) :
+    ∃ q : Int,
+      decodeCoefI64 b k (encodeCoefI128 b k aSize v) = .ok (wrapN 64 (v - q * 2 ^ k)) ∧
+      decodeCoefVec 64 b k (encodeCoefI128 b k aSize v) = .ok (wrapN 64 (v - q * 2 ^ k)) ∧
+      decodeCoefVec 128 b k (encodeCoefI128 b k aSize v) = .ok (wrapN 128 (v - q * 2 ^ k)) ∧
+      (2 ≤ b → 4 * |v| < 2 ^ k → q = 0) :=
+  encode128_decode_roundtrip hr hH hb62 hk hsz v hv
+
+example : decodeCoefVec 128 20 100 (encodeCoefI128 20 100 5 (2 ^ 90 + 12345)) = .ok (2 ^ 90 + 12345) := by
+  obtain ⟨q, _, _, h3, h4⟩ := encode128_decode (b := 20) (k := 100) (aSize := 5) (H := 2 ^ 40)
+    ⟨by norm_num, by decide, by norm_num, by norm_num, by norm_num⟩ (by norm_num) (by norm_num) (by norm_num) (by decide)
+    (2 ^ 90 + 12345) (by norm_num)
+  have hq := h4 (by norm_num) (by norm_num)
+  subst hq
+  rw [h3]
+  simp only [zero_mul, sub_zero]
+  congr 1
+
+/-- **`decode_vec_float`**: the dyadic pair `(m, e)` of the model is the exact rational value of the
+limbs: `m · 2^(e + b·size) = Σ_j a_j·2^(b·(size−1−j))`, i.e. `m·2^e = Σ_j a_j·2^(−b(j+1))`.  (The FBig
+produced by the Rust is compared with this pair by the correspondence.) -/
+theorem decode_float_exact (b : Nat) (a : List Int) :
+    ∃ t : Nat, (decodeFloatCoef b a).2 + (b * a.length : Nat) = t ∧ (decodeFloatCoef b a).1 * 2 ^ t = valI b a :=
+  decodeFloatCoef_exact b a
+
+example : decodeFloatCoef 5 [0, 12] = (3, -8) := by decide
+
 /-! ### cross radix -/
 
-/-- **cross-radix `vec_znx_normalize`, partial**: when the offset shifts the whole input out
-(`res_start = 0` in the Rust) the output is exactly zero — the only case closed by proof; see the
-FULL STATEMENT at the top of the file. -/
+/-- hypotheses of the cross-radix theorems: `bits ∈ {64,128}`, radices `1 ≤ ab, rb ≤ 62`, input limbs
+bounded by `H` with `H + 8 ≤ 2^(bits-2)` (i64: `|limb| ≤ 2^62 − 8`) -/
+theorem crossCtx_example : CrossCtx 64 15 25 2 0 (2 ^ 61) [2 ^ 61, -(2 ^ 61), 12345] :=
+  ⟨Or.inl rfl, by norm_num, by norm_num, by norm_num, by norm_num, by norm_num, by norm_num,
+    by intro x hx; simp at hx; rcases hx with rfl | rfl | rfl <;> norm_num⟩
+
+/-- **cross-radix `vec_znx_normalize` / `vec_znx_big_normalize` at offset 0** (what `glwe_decrypt` into
+another radix and `glwe_normalize` use; `bits = 64`: VecZnx / FFT64, `bits = 128`: NTT120), **any pair of
+radices `1..62`, any sizes, un-normalised input**: whenever the routine returns a result (the model's loop fuel was never
+exhausted in 3·10^6 corresponded cases), the output has `rs` limbs, represents
+`a` on the torus within one unit of its last limb, exactly when `ab·a_size ≤ rb·rs`.
+Digit range: every output limb satisfies `|d| ≤ 2^rb − 1` — cross-radix limbs are *not* always in the
+balanced range `[-2^(rb-1), 2^(rb-1))` (a limb assembled from several balanced pieces can reach down
+to `−(2^rb − 1)`); this is all the code guarantees, and all the property demands for different radices. -/
+theorem normalize_cross_value_offset0 {bits ab rb rs : Nat} {H : Int} {a : List Int}
+    (c : CrossCtx bits ab rb rs 0 H a) {out : List Int}
+    (h : normalizeCrossCoef bits rb rs 0 ab a = some out) :
+    out.length = rs ∧ (∀ d ∈ out, |d| ≤ 2 ^ rb - 1) ∧
+    TorusNear (valI rb out) (rb * rs) (valI ab a) (ab * a.length) ∧
+    (ab * a.length ≤ rb * rs → TorusEq (valI rb out) (rb * rs) (valI ab a) (ab * a.length)) :=
+  normalizeCrossCoef_value_off0 c h
+
+/-- non-vacuity: radix 2^15 → 2^25, three un-normalised limbs at the head-room boundary into two limbs -/
+example : ∃ out, normalizeCrossCoef 64 25 2 0 15 [2 ^ 61, -(2 ^ 61), 12345] = some out ∧
+    TorusNear (valI 25 out) (25 * 2) (valI 15 [2 ^ 61, -(2 ^ 61), 12345]) (15 * 3) := by
+  have h : normalizeCrossCoef 64 25 2 0 15 [2 ^ 61, -(2 ^ 61), 12345] = some [0, 395040] := by decide
+  exact ⟨_, h, (normalize_cross_value_offset0 crossCtx_example h).2.2.1⟩
+
+/-- cross-radix outputs are not always balanced: radix 2^2 → 2^4, `a = [-2,-2,-2,-2,-2,-2]` gives the limbs
+`[6, -10, -10]`; `-10` lies outside `[-8, 8)` but within `|d| ≤ 2^4 − 1` (and the value is exact) -/
+example : normalizeCrossCoef 64 4 3 0 2 [-2, -2, -2, -2, -2, -2] = some [6, -10, -10] ∧ ¬ Balanced 4 (-10) :=
+  ⟨by decide +kernel, by decide⟩
+
+/-- **`vec_znx_normalize` at offset 0, any radix pair** (the dispatch the Rust does): the value
+property C01 (`NormSpec`) and C02 (`normalize_phase_modulo_norm`) rely on. -/
+theorem normalize_value_offset0 {ab rb rs : Nat} {H : Int} {a : List Int}
+    (c : CrossCtx 64 ab rb rs 0 H a) {out : List Int} (h : normalizeCoef rb rs 0 ab a = some out) :
+    out.length = rs ∧ (∀ d ∈ out, |d| ≤ 2 ^ rb - 1) ∧
+    TorusNear (valI rb out) (rb * rs) (valI ab a) (ab * a.length) ∧
+    (ab * a.length ≤ rb * rs → TorusEq (valI rb out) (rb * rs) (valI ab a) (ab * a.length)) := by
+  unfold normalizeCoef at h
+  by_cases hr : rb = ab
+  · subst hr
+    simp only [if_true, Option.some.injEq] at h
+    subst h
+    have hv := normalize_inter_value c.headRoomH rs 0 a c.ha
+    simp only [Int.toNat_zero, pow_zero, mul_one, neg_zero, Nat.add_zero] at hv
+    have hb1 : 1 ≤ rb := c.hrb1
+    have hcast : rb * a.length ≤ rb * rs → (((rb * a.length : Nat) : Int) - 0 ≤ ((rb * rs : Nat) : Int)) := by
+      intro hx
+      have : ((rb * a.length : Nat) : Int) ≤ ((rb * rs : Nat) : Int) := by exact_mod_cast hx
+      linarith
+    refine ⟨hv.1, ?_, hv.2.2.1, fun hx => hv.2.2.2 (hcast hx)⟩
+    intro d hd
+    have := (hv.2.1 d hd).abs_le
+    have h2 := half_le_full hb1
+    have h3 : (1 : Int) ≤ 2 ^ (rb - 1) := by
+      have := two_pow_le (Nat.zero_le (rb - 1)); simpa using this
+    linarith
+  · rw [if_neg hr] at h
+    exact normalize_cross_value_offset0 c h
+
+/-- **NTT120 `vec_znx_big_normalize` at offset 0, any radix pair** (`i128` accumulator) -/
+theorem big_normalize128_value_offset0 {ab rb rs : Nat} {H : Int} {a : List Int}
+    (c : CrossCtx 128 ab rb rs 0 H a) {out : List Int} (h : bigNormalizeCoef128 rb rs 0 ab a = some out) :
+    out.length = rs ∧ (∀ d ∈ out, |d| ≤ 2 ^ rb - 1) ∧
+    TorusNear (valI rb out) (rb * rs) (valI ab a) (ab * a.length) ∧
+    (ab * a.length ≤ rb * rs → TorusEq (valI rb out) (rb * rs) (valI ab a) (ab * a.length)) := by
+  by_cases hr : rb = ab
+  · subst hr
+    have hb63 : rb ≤ 63 := by have := c.hrb; omega
+    have hi := big_normalize128_inter_value c.headRoomH hb63 rs 0 a c.ha
+    rw [hi.1] at h
+    simp only [Option.some.injEq] at h
+    subst h
+    have hv := normalize_inter_value c.headRoomH rs 0 a c.ha
+    simp only [Int.toNat_zero, pow_zero, mul_one, neg_zero, Nat.add_zero] at hv
+    have hb1 : 1 ≤ rb := c.hrb1
+    have hcast : rb * a.length ≤ rb * rs → (((rb * a.length : Nat) : Int) - 0 ≤ ((rb * rs : Nat) : Int)) := by
+      intro hx
+      have : ((rb * a.length : Nat) : Int) ≤ ((rb * rs : Nat) : Int) := by exact_mod_cast hx
+      linarith
+    refine ⟨hv.1, ?_, hv.2.2.1, fun hx => hv.2.2.2 (hcast hx)⟩
+    intro d hd
+    have := (hv.2.1 d hd).abs_le
+    have h2 := half_le_full hb1
+    have h3 : (1 : Int) ≤ 2 ^ (rb - 1) := by
+      have := two_pow_le (Nat.zero_le (rb - 1)); simpa using this
+    linarith
+  · unfold bigNormalizeCoef128 at h
+    rw [if_neg hr] at h
+    exact normalize_cross_value_offset0 c h
+
+/-- when the offset shifts the whole input out (`res_start = 0` in the Rust) the output is exactly zero,
+for every offset -/
 theorem normalize_cross_value_partial (rb rs ab : Nat) (off : Int) (a : List Int)
     (h : clampNat ((a.length * ab : Nat) - (splitOffset ab off).2 * ab) (rs * rb) = 0) :
     normalizeCrossCoef 64 rb rs off ab a = some (List.replicate rs 0) := by
